@@ -54,14 +54,14 @@ Notation self := (VObj cInterpolation [fx; fy; ft; VFloat tol]).
 Variables (I D : R -> R).
 Hypothesis Htol : 0 <= tol.
 Hypothesis Hcall : forall x, Interpolation___call__ Rops self (VFloat x) = VFloat (I x)
-                          \/ exists e, Interpolation___call__ Rops self (VFloat x) = VErr e.
+                          \/ Interpolation___call__ Rops self (VFloat x) = VErr ValueError.
 Hypothesis Hder : forall x, Interpolation_derivative Rops self (VFloat x) = VFloat (D x)
-                          \/ exists e, Interpolation_derivative Rops self (VFloat x) = VErr e.
+                          \/ Interpolation_derivative Rops self (VFloat x) = VErr ValueError.
 
 Definition good (a b : R) (v : val R) : Prop :=
   match v with
   | VFloat r => a <= r <= b /\ Rabs (I r) <= tol
-  | VErr _ => True
+  | VErr e => e = ValueError
   | _ => False
   end.
 
@@ -85,12 +85,13 @@ Proof.
 Qed.
 
 Lemma loop_good a b mi : forall fuel ni x xh xl y yh yl yp,
+  (Z.max 0 (mi - ni) < Z.of_nat fuel)%Z ->
   a <= xl -> xl <= xh -> xh <= b -> xl <= x <= xh -> y = I x -> (tol < Rabs y -> yl * yh < 0) ->
   good a b (root_loop self (VInt mi) fuel (VInt ni) (VFloat x) (VFloat xh) (VFloat xl)
                       (VFloat y) (VFloat yh) (VFloat yl) yp).
 Proof.
-  induction fuel as [| fuel IH]; intros ni x xh xl y yh yl yp Ha Hlh Hb Hx Hy Hs.
-  - exact Logic.I.
+  induction fuel as [| fuel IH]; intros ni x xh xl y yh yl yp Hfu Ha Hlh Hb Hx Hy Hs.
+  - exfalso. simpl in Hfu. lia.
   - destruct (Rle_dec (Rabs y) tol) as [Hex | Hgo].
     + (* loop exit: the current x is returned *)
       assert (E : root_loop self (VInt mi) (S fuel) (VInt ni) (VFloat x) (VFloat xh) (VFloat xl)
@@ -103,17 +104,19 @@ Proof.
       destruct (Z.geb ni mi) eqn:Hge.
       { assert (E : root_loop self (VInt mi) (S fuel) (VInt ni) (VFloat x) (VFloat xh) (VFloat xl)
                       (VFloat y) (VFloat yh) (VFloat yl) yp = VErr ValueError) by (drive; reflexivity).
-        rewrite E. exact Logic.I. }
-      destruct (Hder x) as [Hd | [e Hd]].
+        rewrite E. reflexivity. }
+      assert (Hfu' : (Z.max 0 (mi - (ni + 1)) < Z.of_nat fuel)%Z).
+      { rewrite Z.geb_leb in Hge. apply Z.leb_gt in Hge. rewrite Nat2Z.inj_succ in Hfu. lia. }
+      destruct (Hder x) as [Hd | Hd].
       2:{ assert (E : root_loop self (VInt mi) (S fuel) (VInt ni) (VFloat x) (VFloat xh) (VFloat xl)
-                      (VFloat y) (VFloat yh) (VFloat yl) yp = VErr e) by (drive; reflexivity).
-          rewrite E. exact Logic.I. }
+                      (VFloat y) (VFloat yh) (VFloat yl) yp = VErr ValueError) by (drive; reflexivity).
+          rewrite E. reflexivity. }
       pose proof (secant_inside xl xh yl yh Hlh Hs) as Hsec.
       set (xs := (xl * yh - xh * yl) / (yh - yl)) in *.
       (* what happens once the next abscissa xn (inside the bracket) has been chosen *)
       assert (Hnext : forall xn, xl <= xn <= xh ->
-                (forall e, Interpolation___call__ Rops self (VFloat xn) = VErr e ->
-                   good a b (VErr e)) /\
+                (Interpolation___call__ Rops self (VFloat xn) = VErr ValueError ->
+                   good a b (VErr ValueError)) /\
                 (Interpolation___call__ Rops self (VFloat xn) = VFloat (I xn) ->
                    (0 <= I xn * yl ->
                       good a b (root_loop self (VInt mi) fuel (VInt (ni + 1)) (VFloat xn) (VFloat xh) (VFloat xn)
@@ -121,19 +124,19 @@ Proof.
                    (I xn * yl < 0 ->
                       good a b (root_loop self (VInt mi) fuel (VInt (ni + 1)) (VFloat xn) (VFloat xn) (VFloat xl)
                                   (VFloat (I xn)) (VFloat (I xn)) (VFloat yl) (VFloat (D x)))))).
-      { intros xn Hxn. split; [intros; exact Logic.I | intros _; split; intro Hsign].
-        - apply IH; try lra. intros Hbig.
+      { intros xn Hxn. split; [intros; reflexivity | intros _; split; intro Hsign].
+        - apply IH; try exact Hfu'; try lra. intros Hbig.
           assert (I xn <> 0) by (intro E0; rewrite E0, Rabs_R0 in Hbig; lra).
           destruct Hsg as [[? ?] | [? ?]]; nra.
-        - apply IH; lra. }
+        - apply IH; try exact Hfu'; lra. }
       destruct (Rlt_dec (Rabs (D x)) (Rlit 1 (-3))) as [Hflat | Hsteep].
       * (* derivative too small: secant point *)
         destruct (Hnext xs Hsec) as [Herr Hok].
-        destruct (Hcall xs) as [Hc | [e Hc]].
+        destruct (Hcall xs) as [Hc | Hc].
         2:{ assert (E : root_loop self (VInt mi) (S fuel) (VInt ni) (VFloat x) (VFloat xh) (VFloat xl)
-                      (VFloat y) (VFloat yh) (VFloat yl) yp = VErr e)
+                      (VFloat y) (VFloat yh) (VFloat yl) yp = VErr ValueError)
               by (destruct Hsg as [[? ?] | [? ?]]; unfold xs in *; drive; reflexivity).
-            rewrite E. exact Logic.I. }
+            rewrite E. reflexivity. }
         destruct (Hok Hc) as [Hpos Hneg].
         destruct (Rle_dec 0 (I xs * yl)) as [Hp | Hn].
         -- assert (E : root_loop self (VInt mi) (S fuel) (VInt ni) (VFloat x) (VFloat xh) (VFloat xl)
@@ -157,11 +160,11 @@ Proof.
         { (* left of the bracket: secant point *)
           rename Hsec into Hxs.
           destruct (Hnext xs Hxs) as [Herr Hok].
-        destruct (Hcall xs) as [Hc | [e Hc]].
+        destruct (Hcall xs) as [Hc | Hc].
         2:{ assert (E : root_loop self (VInt mi) (S fuel) (VInt ni) (VFloat x) (VFloat xh) (VFloat xl)
-                      (VFloat y) (VFloat yh) (VFloat yl) yp = VErr e)
+                      (VFloat y) (VFloat yh) (VFloat yl) yp = VErr ValueError)
               by (destruct Hsg as [[? ?] | [? ?]]; unfold xs, xn in *; drive; reflexivity).
-            rewrite E. exact Logic.I. }
+            rewrite E. reflexivity. }
         destruct (Hok Hc) as [Hpos Hneg].
         destruct (Rle_dec 0 (I xs * yl)) as [Hp | Hn].
         -- assert (E : root_loop self (VInt mi) (S fuel) (VInt ni) (VFloat x) (VFloat xh) (VFloat xl)
@@ -180,11 +183,11 @@ Proof.
         destruct (Rlt_dec xh xn) as [Hout2 | Hin2].
         { rename Hsec into Hxs.
           destruct (Hnext xs Hxs) as [Herr Hok].
-        destruct (Hcall xs) as [Hc | [e Hc]].
+        destruct (Hcall xs) as [Hc | Hc].
         2:{ assert (E : root_loop self (VInt mi) (S fuel) (VInt ni) (VFloat x) (VFloat xh) (VFloat xl)
-                      (VFloat y) (VFloat yh) (VFloat yl) yp = VErr e)
+                      (VFloat y) (VFloat yh) (VFloat yl) yp = VErr ValueError)
               by (destruct Hsg as [[? ?] | [? ?]]; unfold xs, xn in *; drive; reflexivity).
-            rewrite E. exact Logic.I. }
+            rewrite E. reflexivity. }
         destruct (Hok Hc) as [Hpos Hneg].
         destruct (Rle_dec 0 (I xs * yl)) as [Hp | Hn].
         -- assert (E : root_loop self (VInt mi) (S fuel) (VInt ni) (VFloat x) (VFloat xh) (VFloat xl)
@@ -202,11 +205,11 @@ Proof.
            rewrite E. exact (Hneg Hn'). }
         assert (Hxn : xl <= xn <= xh) by lra.
         destruct (Hnext xn Hxn) as [Herr Hok].
-        destruct (Hcall xn) as [Hc | [e Hc]].
+        destruct (Hcall xn) as [Hc | Hc].
         2:{ assert (E : root_loop self (VInt mi) (S fuel) (VInt ni) (VFloat x) (VFloat xh) (VFloat xl)
-                      (VFloat y) (VFloat yh) (VFloat yl) yp = VErr e)
+                      (VFloat y) (VFloat yh) (VFloat yl) yp = VErr ValueError)
               by (destruct Hsg as [[? ?] | [? ?]]; unfold xs, xn in *; drive; reflexivity).
-            rewrite E. exact Logic.I. }
+            rewrite E. reflexivity. }
         destruct (Hok Hc) as [Hpos Hneg].
         destruct (Rle_dec 0 (I xn * yl)) as [Hp | Hn].
         -- assert (E : root_loop self (VInt mi) (S fuel) (VInt ni) (VFloat x) (VFloat xh) (VFloat xl)
@@ -241,6 +244,11 @@ Ltac fold_loop mi :=
     assert (E : L = root_loop self (VInt mi)) by reflexivity; rewrite E; clear E
   end.
 
+(* the model's loop fuel (5000) is never exhausted when max_iter < 5000: every pass increments num_iter *)
+Lemma fuel_enough mi : (0 <= mi < 5000)%Z -> (Z.max 0 (mi - 0) < Z.of_nat loop_fuel)%Z.
+Proof. intro H. replace (Z.of_nat loop_fuel) with 5000%Z by (vm_compute; reflexivity). lia. Qed.
+Ltac fuel_ok := apply fuel_enough; assumption.
+
 Lemma big_nonzero v : 0 <= tol -> ~ Rabs v < tol -> 0 < tol -> v <> 0.
 Proof. intros _ H Hp E. apply H. rewrite E, Rabs_R0. exact Hp. Qed.
 Lemma opposite_signs u v : u <> 0 -> v <> 0 -> ~ 0 < u * v -> u * v < 0.
@@ -249,62 +257,71 @@ Proof. intros Hu Hv H. assert (u * v <> 0) by (apply Rmult_integral_contrapositi
 (* from the first __call__ on: goal [good lo hi (Let yl_ := __call__ self lo in ...)], context lo <= hi, 0 < tol *)
 Ltac tail_tac lo hi :=
   norm_args;
-  destruct (Hcall lo) as [? | [? ?]]; known; [| rewrite bind_err; exact Logic.I];
-  destruct (Hcall hi) as [? | [? ?]];
-  [| step; exact Logic.I];
+  destruct (Hcall lo) as [? | ?]; known; [| rewrite bind_err; reflexivity];
+  destruct (Hcall hi) as [? | ?];
+  [| step; reflexivity];
   destruct (Rlt_dec (Rabs (I lo)) tol);
   [ step; simpl; split; lra |];
   destruct (Rlt_dec (Rabs (I hi)) tol);
   [ step; simpl; split; lra |];
   destruct (Rlt_dec 0 (I lo * I hi));
-  [ step; exact Logic.I |];
-  destruct (Hcall ((lo + hi) / Rlit 20 (-1))) as [? | [? ?]];
-  [| step; exact Logic.I];
+  [ step; reflexivity |];
+  destruct (Hcall ((lo + hi) / Rlit 20 (-1))) as [? | ?];
+  [| step; reflexivity];
   step;
-  apply loop_good; try (Rlit_norm; lra);
+  apply loop_good; try (Rlit_norm; lra); try fuel_ok;
   intros _; apply opposite_signs; try assumption; apply big_nonzero; assumption.
 
 (* limits inside the table, in order *)
-Theorem root_in_table xl xh mi : xl <> 0 -> xl + tol <= xh -> xmin <= xl -> xh <= xmax -> 0 < tol ->
+Theorem root_in_table xl xh mi : (0 <= mi < 5000)%Z -> xl <> 0 -> xl + tol <= xh -> xmin <= xl -> xh <= xmax -> 0 < tol ->
   good xl xh (Interpolation_root Rops self (VFloat xl) (VFloat xh) (VInt mi)).
 Proof.
-  intros N0 Hd Hlo Hhi Htp.
+  intros Hmi N0 Hd Hlo Hhi Htp.
   step. fold_loop mi.
   tail_tac xl xh.
 Qed.
 
+(* lower limit exactly 0 (only then is (0, 0) not the default): limits in the table *)
+Theorem root_in_table_zero xh mi : (0 <= mi < 5000)%Z -> xh <> 0 -> 0 + tol <= xh -> xmin <= 0 -> xh <= xmax -> 0 < tol ->
+  good 0 xh (Interpolation_root Rops self (VFloat 0) (VFloat xh) (VInt mi)).
+Proof.
+  intros Hmi N0 Hd Hlo Hhi Htp.
+  step. fold_loop mi.
+  tail_tac 0 xh.
+Qed.
+
 (* limits reversed and both outside the table: the whole table is searched *)
-Theorem root_reversed_outside xl xh mi : xh < xmin -> xmax < xl -> xl <> 0 -> xmin + tol <= xmax -> 0 < tol ->
+Theorem root_reversed_outside xl xh mi : (0 <= mi < 5000)%Z -> xh < xmin -> xmax < xl -> xl <> 0 -> xmin + tol <= xmax -> 0 < tol ->
   good xmin xmax (Interpolation_root Rops self (VFloat xl) (VFloat xh) (VInt mi)).
 Proof.
-  intros H1 H2 N0 Hd Htp.
+  intros Hmi H1 H2 N0 Hd Htp.
   step. fold_loop mi.
   tail_tac xmin xmax.
 Qed.
 
 (* reversed limits inside the table *)
-Theorem root_reversed xl xh mi : xh + tol <= xl -> xmin <= xh -> xl <= xmax -> xl <> 0 -> 0 < tol ->
+Theorem root_reversed xl xh mi : (0 <= mi < 5000)%Z -> xh + tol <= xl -> xmin <= xh -> xl <= xmax -> xl <> 0 -> 0 < tol ->
   good xh xl (Interpolation_root Rops self (VFloat xl) (VFloat xh) (VInt mi)).
 Proof.
-  intros Hd H1 H2 N0 Htp.
+  intros Hmi Hd H1 H2 N0 Htp.
   step. fold_loop mi.
   tail_tac xh xl.
 Qed.
 
 (* upper limit inside, lower limit below the table *)
-Theorem root_clamped_low xl xh mi : xl < xmin -> xmin + tol <= xh -> xh <= xmax -> xl <> 0 -> 0 < tol ->
+Theorem root_clamped_low xl xh mi : (0 <= mi < 5000)%Z -> xl < xmin -> xmin + tol <= xh -> xh <= xmax -> xl <> 0 -> 0 < tol ->
   good xmin xh (Interpolation_root Rops self (VFloat xl) (VFloat xh) (VInt mi)).
 Proof.
-  intros H1 Hd H2 N0 Htp.
+  intros Hmi H1 Hd H2 N0 Htp.
   step. fold_loop mi.
   tail_tac xmin xh.
 Qed.
 
 (* default limits (0, 0): the whole table *)
-Theorem root_default mi : xmin + tol <= xmax -> 0 < tol ->
+Theorem root_default mi : (0 <= mi < 5000)%Z -> xmin + tol <= xmax -> 0 < tol ->
   good xmin xmax (Interpolation_root Rops self (VFloat 0) (VFloat 0) (VInt mi)).
 Proof.
-  intros Hd Htp.
+  intros Hmi Hd Htp.
   step. fold_loop mi.
   tail_tac xmin xmax.
 Qed.
